@@ -180,6 +180,36 @@ pub fn run(ctx: &mut Ctx) {
             let fl: Vec<bool> = if ctx.rng.chance(1, 3) { (0..8).map(|_| ctx.rng.chance(1, 2)).collect() } else { vec![] };
             cancel_case_f(ctx, compressed, verify, &frames, &evs, &ws, &fl, &drops);
         }
+        // 4. a burst that fills the connection's receive buffer to the last byte (6120 bytes; and just under / over), the
+        // transport not ready on the next read, the read future dropped there — on a frame boundary and inside a frame
+        {
+            let bigs = big_frames(compressed);
+            let largest = bigs.iter().max_by_key(|f| f.len()).cloned().unwrap_or(ping.clone());
+            let mk = |n_objs: usize| -> Vec<u8> { let len = 8 + 8 * n_objs; let mut f = vec![0u8; len]; f[0] = size_byte(compressed, len); f[1] = 54; f[3] = n_objs as u8; f };
+            let per = largest.len();
+            for cut in [6116usize, 6120, 6124, 6184] {
+                for on_boundary in [false, true] {
+                    let mut frames: Vec<Vec<u8>> = vec![];
+                    let mut total = 0usize;
+                    while total + per <= cut { frames.push(largest.clone()); total += per; }
+                    if on_boundary {
+                        // fill up to the cut with one AXM of the right size (8 + 8n bytes), then ordinary traffic
+                        let rest = cut - total;
+                        if rest >= 8 && rest % 8 == 0 && classify(compressed, &mk((rest - 8) / 8)) != "E" { frames.push(mk((rest - 8) / 8)); } else { continue; }
+                    }
+                    frames.push(largest.clone());
+                    frames.push(ping.clone());
+                    frames.push(vec![size_byte(compressed, 8), 4, 1, 6, 0xfd, 2, 0, 0]); // SMALL_RTP 7.65 s
+                    let stream = frames.concat();
+                    if stream.len() <= cut { continue; }
+                    let evs = vec![Ev::Data(stream[..cut].to_vec()), Ev::Pending, Ev::Data(stream[cut..].to_vec()), Ev::Pending, Ev::Eof];
+                    cancel_case(ctx, compressed, false, &frames, &evs, &[], &BTreeSet::new());
+                    for d in [vec![0usize], vec![1], vec![0, 1]] {
+                        cancel_case(ctx, compressed, false, &frames, &evs, &[], &d.into_iter().collect());
+                    }
+                }
+            }
+        }
         // 3. flush not ready: two plain packets in one segment, every drop index, for several flush scripts
         for fl in [vec![true], vec![true, true], vec![false, true], vec![true, false, true]] {
             let frames = vec![ping.clone(), vec![size_byte(compressed, 4), 3, 5, 3], ka.clone(), ping.clone()];
